@@ -11,7 +11,8 @@ tv == <<i, bad, cv>>
 RepSum == <<0, 1, 1>>
 RepWant(class) == CASE class = "exact" -> RepSum [] class = "empty" -> <<>> [] class = "prefix" -> <<0, 1>>
                     [] class = "extended" -> <<0, 1, 1, 0>> [] class = "bitflip" -> <<0, 1, 0>> [] OTHER -> <<1, 0>>
-Expected(o) == Gate(RepSum, RepWant(o.class), o.hash_nil)
+Expected(o) == IF o.launch = "runner" THEN GatePathless(RepWant(o.class), o.hash_nil)
+               ELSE Gate(RepSum, RepWant(o.class), o.hash_nil)
 
 Conforms(o) ==
   /\ o.class \in {"exact", "empty", "prefix", "extended", "bitflip", "other"}
